@@ -603,7 +603,7 @@ class C10(PropertyCheck):
                     "H*W <= 12 x kernels {1,3,5}x{1,3,5}",
     }
     # loop ties (DESIGN §12): regenerated from the source on every run, tie theorems proved for all sizes
-    loop_tie_modules = ["LoopsMaskSets", "LoopsBorder"]
+    loop_tie_modules = ["LoopsMaskSets", "LoopsBorder", "LoopsMaskSets2"]
     modelled_functions = [
         "autoarray/mask/mask_2d_util.py:blurring_mask_2d_from",
         "autoarray/mask/mask_2d_util.py:check_if_edge_pixel",
